@@ -67,7 +67,7 @@ VEC_KINDS = {
 }
 VEC_OPTS = {
     "pdf": [{}, {"empty_page": "emptystream"}],
-    "pptx": [{}],
+    "pptx": [{}, {"slide_part_numbers": "reversed"}, {"slide_part_numbers": "gapped"}],
     "odp": [{}, {"class_style_names": True}],
     "odg": [{}, {"custom_shape": True}],
     "ppt": [{}, {"layout": "lo"}, {"p_mode": "textbox"}, {"p_mode": "slwt_other"}],
